@@ -11,6 +11,14 @@ MCAnswers     == {"ok", "ok-2xx", "ct-bad", "id-mismatch", "id-missing", "bad-js
 MCKeyClasses  == {"valid", "invalid"}
 MCMetas       == {"nil", "false", "true"}
 MCBuilds      == {"before-strict", "after-strict"}
+\* all weak orders of the timestamps of 1, 2 and 3 versions (dense ranks), written out as tuples so that they print as JSON arrays
+MCHistories   == {<<0>>,
+                  <<0, 0>>, <<0, 1>>, <<1, 0>>,
+                  <<0, 0, 0>>, <<0, 0, 1>>, <<0, 1, 0>>, <<1, 0, 0>>, <<0, 1, 1>>, <<1, 0, 1>>, <<1, 1, 0>>,
+                  <<0, 1, 2>>, <<0, 2, 1>>, <<1, 0, 2>>, <<1, 2, 0>>, <<2, 0, 1>>, <<2, 1, 0>>}
+Dense(h)      == LET R == {h[i] : i \in DOMAIN h} IN R = 0..(Cardinality(R) - 1)
+ASSUME MCHistories = UNION {{h \in [1..n -> 0..(n - 1)] : Dense(h)} : n \in 1..3}
+MCAheads      == {"none", "last", "all"}
 
 \* every terminal state = one fully decided case: the case, the predicted verdict and the predicted set of fetches
 Emit == Terminal => PrintT(ToJson([case |-> c, outcome |-> outcome, docid |-> docid, why |-> why, rt |-> rt,
